@@ -8,68 +8,6 @@ namespace AmVerif.ChangeCodec.Full
 open AmVerif AmVerif.Leb AmVerif.Crdt AmVerif.ChangeCodec AmVerif.Chunk
 open AmVerif.Hexane (two63 two64 validUtf8)
 
-instance (b : Bytes) : Decidable (validSmol b) := by unfold validSmol; infer_instance
-instance (i : Int) : Decidable (inI64v i) := by unfold inI64v; infer_instance
-
-/-! ## the predicate -/
-
-/-- an object id other than the root has a positive counter that fits a `u32` -/
-def ObjWF : ObjId → Prop
-  | .root => True
-  | .id i => 0 < i.ctr ∧ i.ctr < 2 ^ 32
-
-/-- a map key is a valid UTF-8 string the `SmolStr` reader allocates (≤ 10^9 bytes); an element id has
-    a positive counter that fits a `u32` (`HEAD` is written as counter 0) -/
-def KeyWF : Key → Prop
-  | .map k => validSmol k
-  | .head => True
-  | .elem e => 0 < e.ctr ∧ e.ctr < 2 ^ 32
-
-def ActionWF : Action → Prop
-  | .make _ => True
-  | .put v => ScalarWF v
-  | .del => True
-  | .inc n => inI64v n
-  | .markBegin name v _ => validSmol name ∧ ScalarWF v
-  | .markEnd _ => True
-
-instance (o : ObjId) : Decidable (ObjWF o) := by cases o <;> unfold ObjWF <;> infer_instance
-instance (k : Key) : Decidable (KeyWF k) := by cases k <;> unfold KeyWF <;> infer_instance
-instance (a : Action) : Decidable (ActionWF a) := by cases a <;> unfold ActionWF <;> infer_instance
-
-/-- one operation: ids and values in range, predecessors in the order `SortedVec<OpId>` keeps them -/
-def OpWF (o : Op) : Prop :=
-  ObjWF o.obj ∧ KeyWF o.key ∧ ActionWF o.action ∧ sortOpIds o.pred = o.pred ∧ ∀ p ∈ o.pred, p.ctr < 2 ^ 32
-
-instance (o : Op) : Decidable (OpWF o) := by unfold OpWF; infer_instance
-
-/-- the ids of the operations are `start@actor`, `(start+1)@actor`, … -/
-def idsFrom (actor : Bytes) : Nat → List Op → Bool
-  | _, [] => true
-  | n, o :: r => o.id == ⟨n, actor⟩ && idsFrom actor (n + 1) r
-
-/-- **well-formed (library-written) changes**: what `Change::from(ExpandedChange)` / a transaction
-    commit produces.
-    * the dependencies are 32-byte hashes in the order `sort_unstable` leaves them;
-    * actor ids, sequence number, start op (non-zero; all op counters of the change fit a `u32`),
-      time (`i64`) and the counts fit the length fields of the format; the actor table (author, then
-      the other actors sorted) has fewer than 2^32 entries;
-    * the message is absent or a non-empty valid UTF-8 string;
-    * the operations are numbered consecutively from `startOp` with the change's actor and are
-      well-formed (`OpWF`);
-    * the chunk body is shorter than 2^64 bytes. -/
-def ChangeWF (c : XChange) : Prop :=
-  sortDeps c.deps = c.deps ∧ (∀ h ∈ c.deps, h.length = Consts.HASH_SIZE) ∧ c.deps.length < 2 ^ 64 ∧
-  c.actor.length < 2 ^ 64 ∧ (∀ a ∈ otherActors c.actor c.ops, a.length < 2 ^ 64) ∧
-  (otherActors c.actor c.ops).length + 1 < 2 ^ 32 ∧
-  c.seq < 2 ^ 64 ∧ 0 < c.startOp ∧ c.startOp < 2 ^ 32 ∧ c.startOp + c.ops.length ≤ 2 ^ 32 ∧ inI64v c.time ∧ MsgWF c.message ∧
-  idsFrom c.actor c.startOp c.ops = true ∧ (∀ o ∈ c.ops, OpWF o) ∧
-  (c.ops.flatMap (·.pred)).length < 2 ^ 63 ∧
-  (encodeBody (sortDeps c.deps) c.actor (otherActors c.actor c.ops) c.seq c.startOp c.time c.message
-    (c.ops.map (toRow (c.actor :: otherActors c.actor c.ops))) c.extra).length < 2 ^ 64
-
-instance (c : XChange) : Decidable (ChangeWF c) := by unfold ChangeWF; infer_instance
-
 /-! ## the actor table -/
 
 theorem mem_insertBytes (a k : Bytes) : ∀ xs : List Bytes, (a = k ∨ a ∈ xs) → a ∈ insertBytes k xs
